@@ -1362,6 +1362,17 @@ def run(ctx: Ctx) -> None:
         ctx.count("corpus_session_cases")
         handle_session(ctx, case, k)
         k += 1
+    brng = random.Random(f"C03-bunch-{ctx.seed}")
+    for i in range(ctx.n(60, 1500)):
+        if ctx.out_of_time():
+            break
+        case = gen_bunch_case(brng)
+        probs = run_bunch(ctx, case)
+        ctx.count("bunch:photons>=13" if case["k"] >= 13 else "bunch:photons<13")
+        ctx.case(json.dumps(case), True, sample=case if i == 0 else None)
+        if probs:
+            ctx.count("cases_with_problems")
+            ctx.violation(probs[0], {"case": case, "problems": probs}, sig={"kind": "many-photons"})
     N = ctx.n(220, 5000)
     rng = ctx.rng
     srng = random.Random(f"C03-sessions-{ctx.seed}")
@@ -1380,8 +1391,80 @@ def run(ctx: Ctx) -> None:
         handle(ctx, case, i)
 
 
+# ------------------------------------------------------------------ many photons through one mode
+
+
+def gen_bunch_case(rng) -> dict:
+    """all k photons enter (or leave) through ONE mode, k up to 20: the photon-indexed sub-matrix has rank one and
+    the amplitude has the multinomial closed form of theorems C03.bunched_input_amplitude / bunched_output_amplitude
+    (sqrt(k!/prod t_j!) * prod_j U[j,c]^t_j), so the clause can be evaluated far beyond the photon numbers an
+    n!-term permanent reaches - where the occupation factorials leave the 64-bit range (13!*13! > 2^64)"""
+    n = rng.choice([2, 2, 3, 3, 4])
+    prog = [["new", "c1", n]]
+    for _ in range(rng.randint(1, 5)):
+        if rng.random() < 0.65:
+            m1, m2 = rng.sample(range(n), 2)
+            c, s_ = rng.choice(PYTH)
+            prog.append(cg.op_bs("c1", m1, m2, c, s_, rng.choice(["Rx", "H"])))
+        else:
+            prog.append(cg.op_ps("c1", rng.randrange(n), rng.choice(CIRCLE)))
+    k = rng.choice([rng.randint(5, 20), rng.randint(11, 16), 12, 13, 14])
+    side = rng.choice(["in", "in", "out"])
+    mode = rng.randrange(n)
+    others = [fg.rand_state(rng, n, k) for _ in range(rng.randint(1, 4))]
+    if rng.random() < 0.5:
+        st = [0] * n
+        st[rng.randrange(n)] = k
+        others.append(st)  # bunched on both sides
+    return {"kind": "bunch", "prog": prog, "k": k, "side": side, "mode": mode, "others": others}
+
+
+def run_bunch(ctx: Ctx, case: dict) -> list[str]:
+    pool = fg.build_impl(case["prog"])
+    c = pool.get("c1")
+    if c is None:
+        return []
+    n, k, a = c.n_modes, case["k"], case["mode"]
+    if a >= n or any(len(o) != n for o in case["others"]):
+        return []
+    u = np.array(c.U_full)
+    bunched = [0] * n
+    bunched[a] = k
+    ins = [bunched] if case["side"] == "in" else case["others"]
+    outs = case["others"] if case["side"] == "in" else [bunched]
+    sim = emulator.Simulator(c)
+    try:
+        res = sim.simulate([lw.State(x) for x in ins], [lw.State(x) for x in outs])
+        arr = np.array(res.array)
+    except Exception as e:  # noqa: BLE001
+        return [f"oracle: Simulator.simulate raised {exc_class(e)} for the valid request {ins} -> {outs}: {str(e)[:80]}"]
+    probs = []
+    for i, s_ in enumerate(ins):
+        for j, t in enumerate(outs):
+            other = t if case["side"] == "in" else s_
+            # closed form (exact integers under the square root)
+            num = math.factorial(k)
+            den = math.prod(math.factorial(x) for x in other)
+            amp = math.sqrt(num / den) if num % den else math.sqrt(num // den)
+            for m, occ in enumerate(other):
+                amp = amp * (u[m, a] if case["side"] == "in" else u[a, m]) ** occ
+            got = arr[i, j]
+            if not np.isfinite(got) or abs(got - amp) > 1e-9 + 1e-9 * abs(amp):
+                probs.append(f"oracle: amplitude {s_} -> {t} = {got:.12g} but all {k} photons pass through mode {a}: "
+                             f"sqrt(k!/prod t!) * prod U^t = {amp:.12g}")
+                return probs
+    return probs
+
+
 def replay(ctx: Ctx, path: str) -> None:
     data = json.load(open(path))["replay"]
+    if data["case"].get("kind") == "bunch":
+        probs = run_bunch(ctx, data["case"])
+        ctx.case("replay", True, sample=data["case"])
+        for p in probs:
+            print("replay:", p)
+            ctx.violation(p, data, sig={"kind": "replay"})
+        return
     probs = run_case(ctx, data["case"])
     ctx.case("replay", True, sample=data["case"])
     for p in probs:
